@@ -266,5 +266,15 @@ def json_dumps(s):
     return json.dumps(s)
 
 
+def json_container(s):
+    import json
+    if s in ('true', 'false', 'null'):
+        return False
+    try:
+        return isinstance(json.loads(s, parse_constant=str), (list, dict))
+    except Exception:
+        return False
+
+
 def last_index(s, sub):
     return s.rfind(sub)
